@@ -58,6 +58,12 @@ func (l *Lexer) lexToSpaceTokenEat(currentChar rune) strings.Builder {
 	for {
 		char := l.reader.Read()
 
+		if char == 0 && l.reader.IsEOF() {
+			l.reader.Unread()
+
+			return buf
+		}
+
 		if unicode.IsSpace(char) {
 			if char != '\n' {
 				l.IsSpace = true
@@ -182,7 +188,9 @@ func (l *Lexer) lexIdentifier(currentChar rune) {
 		}
 
 		if !isIdentifierChar(char) {
-			if strings.Contains(buf.String(), ":\"") && char != '\n' && char != '"' {
+			isEOF := char == 0 && l.reader.IsEOF()
+
+			if strings.Contains(buf.String(), ":\"") && char != '\n' && char != '"' && !isEOF {
 				buf.WriteRune(char)
 				continue
 			}
@@ -210,6 +218,10 @@ func (l *Lexer) lexString(start rune) {
 		char := l.reader.Read()
 
 		if char == start {
+			break
+		}
+
+		if char == 0 && l.reader.IsEOF() {
 			break
 		}
 
@@ -250,6 +262,10 @@ func (l *Lexer) skipLineComment() {
 		char = l.reader.Read()
 
 		if char == '\n' {
+			break
+		}
+
+		if char == 0 && l.reader.IsEOF() {
 			break
 		}
 
